@@ -40,6 +40,9 @@ def plan(tier, seed):
     # a flow-to-class function is only an annotation for SP: service still follows the flow's own priority
     for tab in ([[0, 1], [1, 3], [2, 2]], [[0, 3], [1, 1], [2, 2]]):
         cfgs.append(dict(sched="SP", table=tab, rate=8, flows=[0, 1, 2], sizes=[1], N=4 if quick else 5, gaps=["S", 1], order=0, map="mod2"))
+    # a second live SP with other priorities in the same program; sizes that are not binary fractions
+    cfgs.append(dict(sched="SP", table=[[0, 1], [1, 2], [2, 3]], rate=8, flows=[0, 1, 2], sizes=[1], N=4 if quick else 5, gaps=["S", 1], order=0, twin=1))
+    cfgs.append(dict(sched="SP", table=[[0, 2], [1, 1], [2, 3]], rate=8, flows=[0, 1, 2], sizes=[1000.1, 1000.2], N=4 if quick else 5, gaps=["S", 1000, 3000], order=0))
     # every configuration once more with long fixed workloads (state that only breaks after hundreds of packets)
     nlong = explore.add_long(cfgs, 300 if quick else 1000)
     ndebug = explore.add_debug_variants(cfgs)      # the same with every element constructed with debug=True
